@@ -817,6 +817,131 @@ def decide_gdt_append(fns, MAX, system):
     return res
 
 
+# ----------------------------------------------------------------------------------------------- C06: alignment (release)
+def align_obligations():
+    return [
+        dict(name="align_down(u64, u64)", key=(None, None, "align_down"), self_ty=None, op="down"),
+        dict(name="align_up(u64, u64)", key=(None, None, "align_up"), self_ty=None, op="up"),
+        dict(name="VirtAddr::align_down_u64", key=("VirtAddr", None, "align_down_u64"), self_ty="VirtAddr", op="down"),
+        dict(name="PhysAddr::align_down_u64", key=("PhysAddr", None, "align_down_u64"), self_ty="PhysAddr", op="down"),
+        dict(name="VirtAddr::is_aligned_u64", key=("VirtAddr", None, "is_aligned_u64"), self_ty="VirtAddr", op="is"),
+        dict(name="PhysAddr::is_aligned_u64", key=("PhysAddr", None, "is_aligned_u64"), self_ty="PhysAddr", op="is"),
+    ]
+
+
+def decide_align(fns, ob):
+    """Release-profile semantics of the alignment helpers: returns the exact rounded value for a power-of-two
+    alignment (VirtAddr: alignments up to 2^47), panics exactly when the alignment is not a power of two or the
+    rounded value does not fit in 64 bits."""
+    t0 = time.time()
+    it = Interp(fns, 0)
+    fn = fns.get(ob["key"])
+    if fn is None:
+        return dict(verdict="unsupported", why="function not found in MIR: " + str(ob["key"]))
+    a, al = z3.BitVec("a", 64), z3.BitVec("b", 64)
+    pre = []
+    if ob["self_ty"] == "VirtAddr":
+        pre += [canonical(a), z3.ULE(al, BV64(1 << 47))]
+    elif ob["self_ty"] == "PhysAddr":
+        pre += [phys(a)]
+    args = [Struct(ob["self_ty"], [a]) if ob["self_ty"] else a, al]
+    for c in pre:
+        it.solver.add(c)
+    try:
+        outs = it.call(fn, args, z3.BoolVal(True))
+    except Unsupported as e:
+        return dict(verdict="unsupported", why=str(e))
+    pow2 = z3.And(al != 0, (al & (al - 1)) == 0)
+    mask = al - 1
+    down = a & ~mask
+    up = ext(down) + z3.If((a & mask) == 0, z3.BitVecVal(0, 128), ext(al))
+    up_fits = z3.ULT(up, z3.BitVecVal(1 << 64, 128))
+    bad = []
+    n_ret = n_panic = 0
+    for pc, o, _h in outs:
+        if isinstance(o, Panic):
+            n_panic += 1
+            must_return = z3.And(pow2, up_fits) if ob["op"] == "up" else pow2
+            bad.append(z3.And(pc, must_return))
+            continue
+        n_ret += 1
+        if ob["op"] == "is":
+            r = o if z3.is_bool(o) else (raw_of(o) != 0)
+            wrong = z3.Or(z3.Not(pow2), r != ((a & mask) == 0))
+        elif ob["op"] == "down":
+            wrong = z3.Or(z3.Not(pow2), raw_of(o) != down)
+        else:
+            wrong = z3.Or(z3.Not(pow2), z3.Not(up_fits), ext(raw_of(o)) != up)
+        bad.append(z3.And(pc, wrong))
+    sv = z3.Solver()
+    for c in pre:
+        sv.add(c)
+    sv.add(z3.Or(*bad) if bad else z3.BoolVal(False))
+    smt2 = "(set-logic ALL)\n" + sv.to_smt2()
+    r = sv.check()
+    res = dict(paths=len(outs), returning_paths=n_ret, panicking_paths=n_panic, z3=str(r), cvc5=cvc5_check(smt2),
+               functions=sorted(it.encoded), solver_s=round(time.time() - t0, 3), op=ob["op"], self_ty=ob["self_ty"])
+    if str(r) == "unknown" or res["cvc5"] != str(r):
+        res.update(verdict="inconclusive", why=f"z3={r} cvc5={res['cvc5']}")
+    elif r == z3.sat:
+        m = sv.model()
+        av, bv = m.eval(a, model_completion=True).as_long(), m.eval(al, model_completion=True).as_long()
+        got = "PANIC"
+        for pc, o, _h in outs:
+            if not isinstance(o, Panic) and z3.is_true(m.eval(pc, model_completion=True)):
+                v = m.eval(o if z3.is_bool(o) else raw_of(o), model_completion=True)
+                got = (str(v).lower() if z3.is_bool(v) else f"{v.as_long():#x}")
+        res.update(verdict="violated", a=av, b=bv, returns=got)
+    else:
+        res["verdict"] = "holds"
+    return res
+
+
+def replay_align(scratch, results):
+    """Counterexamples of decide_align against the real crate, release profile."""
+    cases = [r for r in results if r.get("verdict") == "violated"]
+    if not cases:
+        return {}
+    d = os.path.join(scratch, "m_replay_align")
+    os.makedirs(os.path.join(d, "src"), exist_ok=True)
+    open(os.path.join(d, "Cargo.toml"), "w").write(
+        '[package]\nname = "m_replay_align"\nversion = "0.0.0"\nedition = "2021"\n\n[dependencies]\nx86_64 = { path = ".." }\n\n[workspace]\n\n'
+        '[profile.release]\noverflow-checks = false\ndebug-assertions = false\n')
+    body = ["use x86_64::{PhysAddr, VirtAddr};", "use std::panic::catch_unwind;",
+            "fn show(i: usize, r: std::thread::Result<String>) { match r { Ok(v) => println!(\"{}|{}\", i, v), Err(_) => println!(\"{}|PANIC\", i) } }",
+            "fn main() {", "    std::panic::set_hook(Box::new(|_| {}));"]
+    for i, r in enumerate(cases):
+        a, b = r["a"], r["b"]
+        ty = r["self_ty"]
+        if ty is None:
+            expr = f'format!("{{:#x}}", x86_64::{"align_down" if r["op"] == "down" else "align_up"}({a:#x}u64, {b:#x}u64))'
+        elif r["op"] == "down":
+            expr = f'format!("{{:#x}}", unsafe {{ {ty}::new_unsafe({a:#x}) }}.align_down({b:#x}u64).as_u64())'
+        else:
+            expr = f'format!("{{}}", unsafe {{ {ty}::new_unsafe({a:#x}) }}.is_aligned({b:#x}u64))'
+        body.append(f"    show({i}, catch_unwind(|| {expr}));")
+    body.append("}")
+    open(os.path.join(d, "src", "main.rs"), "w").write("\n".join(body) + "\n")
+    env = dict(os.environ, CARGO_NET_OFFLINE="true", CARGO_TARGET_DIR=os.path.join(scratch, "target-mreplay"))
+    env.pop("RUSTUP_TOOLCHAIN", None)
+    lock = os.path.join(scratch, "Cargo.lock")
+    if os.path.exists(lock):
+        import shutil
+        shutil.copy(lock, os.path.join(d, "Cargo.lock"))
+    p = subprocess.run(["cargo", "+nightly", "run", "--offline", "--release", "-q"], cwd=d, env=env, capture_output=True, text=True, timeout=900)
+    out = {}
+    for line in p.stdout.splitlines():
+        if "|" in line:
+            n, v = line.split("|", 1)
+            out[int(n)] = v
+    res = {}
+    for i, r in enumerate(cases):
+        got = out.get(i)
+        res[r["obligation"]] = dict(returned=got, predicted=r.get("returns"), reproduced=(got is not None and got == r.get("returns")),
+                                    build_error=(p.stderr[-600:] if got is None else ""))
+    return res
+
+
 def replay_gdt(scratch, results):
     """Run the counterexamples of decide_gdt_append against the real crate (catch_unwind around append)."""
     cases = [r for r in results if r.get("verdict") == "violated"]
@@ -896,7 +1021,7 @@ def main():
     fns = parse_mir(mir, scratch)
     st = selftest(fns)
     results = []
-    for ob in obligations():
+    for ob in (obligations() if not ("--gdt" in sys.argv or "--align" in sys.argv) else []):
         for sz_name, sz in ob["sizes"].items():
             r = decide(fns, ob, sz_name, sz)
             r["obligation"] = ob["name"] + ("" if sz_name == "-" else f" [S={sz_name}]")
@@ -913,6 +1038,12 @@ def main():
                 r = decide_gdt_append(fns, MAX, system)
                 r["obligation"] = f"GlobalDescriptorTable::<{MAX}>::append({'System' if system else 'User'}Segment): a panicking append leaves the table unchanged; panics exactly when it does not fit"
                 results.append(r)
+    if "--align" in sys.argv:
+        results = []
+        for ob in align_obligations():
+            r = decide_align(fns, ob)
+            r["obligation"] = ob["name"] + ": exact rounded value, panics exactly for a non-power-of-two alignment / overflow (release profile)"
+            results.append(r)
     json.dump(dict(results=results, selftest=[dict(fn=a, input=b, ok=c) for a, b, c in st], mir_functions=len(fns), wall_s=round(time.time() - t0, 2)), open(out, "w"), indent=1)
 
 
